@@ -89,7 +89,7 @@ class WebsocketFrame:
         self.payload_length = byte & 0b01111111
 
     def build(self) -> bytes:
-        if self.payload_length is None and self.data:
+        if self.payload_length is None and self.data is not None:
             self.payload_length = len(self.data)
         raw = io.BytesIO()
         raw.write(
@@ -131,10 +131,13 @@ class WebsocketFrame:
                 f'Invalid payload_length { self.payload_length},'
                 f'maximum allowed { 1 << 64}',
             )
-        if self.masked and self.data:
+        if self.masked:
+            # Masking key is always present when mask bit is set,
+            # even when the payload is empty (RFC 6455, 5.2)
             mask = secrets.token_bytes(4) if self.mask is None else self.mask
             raw.write(mask)
-            raw.write(self.apply_mask(self.data, mask))
+            if self.data:
+                raw.write(self.apply_mask(self.data, mask))
         elif self.data:
             raw.write(self.data)
         return raw.getvalue()
